@@ -680,6 +680,18 @@ fn run_case(c: &Case) -> Verdict {
                 v.fail(format!("{ID}/recovery_stats/damage-not-reported"), format!("script {:?} ; stats {:?}", applied.desc, stats.as_ref().map(|s| (s.entries_recovered, s.entries_failed, s.corruption_events.len(), s.data_loss_detected))));
             }
         }
+        // 4. recovery must not itself destroy what it honoured: closing and reopening once more (nothing was written
+        //    in between) yields the same state again
+        drop(m);
+        match PersistentStateManager::<Val>::new(config(&dmg, 0)).await {
+            Ok(m2) => {
+                let got2 = m2.get_all().unwrap_or_default();
+                if got2 != got {
+                    v.fail(format!("{ID}/recover/second-recovery-differs-from-the-first"), format!("first recovery {:?} ; second recovery of the same directory {:?} ; script {:?}", show(&got), show(&got2), applied.desc));
+                }
+            }
+            Err(e) => v.fail(format!("{ID}/recover/second-reopen-of-damaged-directory-failed"), format!("{e}; script {:?}", applied.desc)),
+        }
         v.nt(applied.hits_deciding_record || (got != built.final_state));
         for d in &c.script {
             v.class(match d {
